@@ -14,7 +14,7 @@ RULE = ('random directory trees (depth <= 4): tests modules and tests packages w
         '"cli" cases run --list-tests with -m filters and -s packages and record which module files executed; '
         'non-trivial = at least one file found and one candidate rejected')
 TRUSTED_BASE = ["os.walk, the import system and Python's re (identifier / tests / test-file patterns are oracles on names) are external"]
-ASSUMPTIONS = ['symbolic links to directories only where all sub-directories of a directory are links (the runner walks linked sub-directories before real ones); in CLI cases distinct files map to distinct module names (generator rejects collisions of module '
+ASSUMPTIONS = ['symbolic links to directories only (no links to files, no link cycles); in CLI cases distinct files map to distinct module names (generator rejects collisions of module '
                'and package names between roots: Python itself would import only one of them)']
 
 DIRN = ['pkg', 'tests', 'ftests', 'sub', 'my-data', 'node_modules', '.git', '__pycache__', 'CVS', 't2', 'tests_more', '9lives', 'deep', 'pkg2', 'subs']
@@ -32,14 +32,13 @@ def rand_dir(rng, depth, cli):
             continue
         entries[n] = ['f', n, '']
     if depth > 0:
-        # in some directories every sub-directory is a symbolic link to a directory elsewhere: walked like directories, pruned by
-        # the same rules (a directory mixing linked and real sub-directories is not generated: the runner walks the linked ones
-        # first, which the tree model does not distinguish)
-        links = rng.random() < 0.15
+        # some sub-directories are symbolic links to directories elsewhere: walked like directories, in their sorted position,
+        # pruned by the same rules
+        links = rng.random() < 0.25
         for _ in range(rng.randint(0, 3)):
             n = rng.choice(DIRN)
             if n not in entries and n + '.py' not in entries:
-                entries[n] = ['d', n, rand_dir(rng, depth - 1, cli)] + (['link'] if links else [])
+                entries[n] = ['d', n, rand_dir(rng, depth - 1, cli)] + (['link'] if links and rng.random() < 0.6 else [])
     return list(entries.values())
 
 
@@ -97,6 +96,14 @@ def generate(rng, tier, rep):
                           'mode': 'direct', 'order_seed': k, 'mpats_given': [], 'topname': 'p%d' % k})
             rep.count('mode=direct')
             rep.count('with --package')
+    if tier != 'search':
+        # a linked directory among real ones (and the other way round), each holding a test module: path order all the same
+        t = [['f', 'tests.py', '']]
+        for k, which in enumerate([(1,), (0,), (0, 2), (1, 2), (0, 1, 2)]):
+            tree = [['d', nm, [list(x) for x in t]] + (['link'] if j in which else []) for j, nm in enumerate(['pkg', 'sub', 't2'])]
+            cases.append({'tree': tree, 'roots': [['--test-path', []]], 'flags': [], 'extra_ign': [], 'usecompiled': False, 'spkgs': [],
+                          'mode': 'direct', 'order_seed': k, 'mpats_given': [], 'topname': 'lk%d' % k})
+            rep.count('mode=direct')
     while len(cases) < n:
         i = len(cases)
         cli = i < ncli
